@@ -4,7 +4,6 @@ package verrgroup
 
 import (
 	"context"
-	"sync"
 
 	"golang.org/x/sync/errgroup"
 
@@ -17,14 +16,38 @@ type Group struct {
 	err    error
 	cancel func(error)
 	real   errgroup.Group
-	mu     sync.Mutex
 }
 
+//go:norace
 func WithContext(ctx context.Context) (*Group, context.Context) {
 	ctx, cancel := context.WithCancelCause(ctx)
 	return &Group{cancel: cancel}, ctx
 }
 
+type child struct {
+	g *Group
+	f func() error
+}
+
+//go:norace
+func (c child) run() {
+	err := c.f()
+	if err != nil {
+		c.g.fail(err)
+	}
+}
+
+//go:norace
+func (g *Group) fail(err error) {
+	if g.err == nil {
+		g.err = err
+		if g.cancel != nil {
+			g.cancel(g.err)
+		}
+	}
+}
+
+//go:norace
 func (g *Group) Go(f func() error) {
 	w := vrt.W()
 	if w == nil {
@@ -37,41 +60,33 @@ func (g *Group) Go(f func() error) {
 	if g.gen != w.Gen {
 		g.gen, g.kids, g.err = w.Gen, nil, nil
 	}
-	t := w.GoInGroup(func() {
-		if err := f(); err != nil {
-			if g.err == nil {
-				g.err = err
-				if g.cancel != nil {
-					g.cancel(g.err)
-				}
-			}
-		}
-	})
+	t := w.GoInGroup(child{g, f}.run)
 	g.kids = append(g.kids, t)
 }
 
+//go:norace
+func (g *Group) waitModel(w *vrt.World) (kids []*vrt.Thread, err error) {
+	if w.Closing() {
+		return nil, g.err
+	}
+	kids = g.kids
+	w.PointC("eg.wait", false, vrt.AllDone(kids))
+	err = g.err
+	if g.cancel != nil {
+		g.cancel(g.err)
+	}
+	return kids, err
+}
+
+//go:norace
 func (g *Group) Wait() error {
 	w := vrt.W()
 	if w == nil {
 		return g.real.Wait()
 	}
-	if w.Closing() {
-		return g.err
-	}
-	kids := g.kids
-	w.Point("eg.wait", false, func() bool {
-		for _, k := range kids {
-			if !k.Done() {
-				return false
-			}
-		}
-		return true
-	})
+	kids, err := g.waitModel(w)
 	for _, k := range kids {
-		k.JoinAcquire()
+		k.JoinAcquire() // every child's exit happens-before Wait returns
 	}
-	if g.cancel != nil {
-		g.cancel(g.err)
-	}
-	return g.err
+	return err
 }
